@@ -15,7 +15,7 @@ def is_nan(x):
     return isinstance(x, float) and x != x
 
 
-SERIES_T = ["hampel", "imputer-mean", "imputer-ffill", "imputer-linear", "imputer-drift", "imputer-placeholder", "log", "detrender", "deseasonalizer", "passthrough", "cosine"]
+SERIES_T = ["hampel", "imputer-mean", "imputer-ffill", "imputer-linear", "imputer-drift", "imputer-placeholder", "log", "boxcox-pearsonr", "adaptor", "detrender", "deseasonalizer", "passthrough", "cosine"]
 FORECASTERS = ["naive-last", "naive-mean", "naive-drift", "naive-drift-failing-predict", "poly", "sm-adapter", "reduce-recursive", "ensemble", "pipeline"]
 PANEL_T = ["padding", "truncation", "paa", "tabularizer", "concatenator", "interval", "sliding", "features", "pca", "random-interval"]
 
@@ -99,6 +99,8 @@ class C12(Harness):
                 return types.SimpleNamespace(seasonal=W.pd.Series([sig[i % len(sig)] for i in range(len(z))], index=z.index))
 
             ov["statsmodels.tsa.seasonal"] = types.SimpleNamespace(seasonal_decompose=seasonal_decompose)
+        if w == "boxcox-pearsonr":
+            ov.update(_c13.HARNESS.overrides(kind, {"kind": "boxcox"}) or {})
         if kind == "sym" and w in ("detrender", "poly", "imputer-drift"):
             ov["sklearn.linear_model"] = types.SimpleNamespace(LinearRegression=msk.LinearRegression)
             ov["sklearn.pipeline"] = types.SimpleNamespace(make_pipeline=msk.make_pipeline)
@@ -123,9 +125,12 @@ class C12(Harness):
         n = choice("n", 4, 5)
         inp = {"s0": ctx.fresh_int("s0"), "y": fresh_reals(ctx, "y", n), "z": fresh_reals(ctx, "z", 3)}
         w = cell["which"]
-        if w == "log":
+        if w in ("log", "boxcox-pearsonr"):
             for v in inp["y"] + inp["z"]:
                 ctx.assume(v > 0)
+        if w == "boxcox-pearsonr":
+            inp["lam"] = ctx.fresh_real("lam")
+            ctx.assume((inp["lam"] >= -2) & (inp["lam"] <= 2))
         if w == "imputer-placeholder":
             inp["mv"] = ctx.fresh_real("placeholder")
             ctx.assume(inp["mv"] != 0)
@@ -147,7 +152,7 @@ class C12(Harness):
         return inp
 
     # ------------------------------------------------------------------
-    def _snapshot(self, est):
+    def _snapshot(self, est, _depth=0):
         snap = {}
         for k, v in sorted(vars(est).items()):
             if k == "_fh":
@@ -160,6 +165,10 @@ class C12(Harness):
                 snap[k] = ["array", L(v) if getattr(v, "ndim", 1) >= 1 else S(v)]
             elif isinstance(v, (int, float, str, bool, type(None))) or is_sym(v):
                 snap[k] = ["scalar", v]
+            elif hasattr(v, "get_params") and _depth < 1:
+                snap[k] = ["estimator", id(v), self._snapshot(v, _depth + 1)]  # a wrapped estimator: its own state counts
+            elif isinstance(v, list) and all(isinstance(e, (int, float, str, bool, type(None))) or is_sym(e) for e in v):
+                snap[k] = ["list", list(v)]
             else:
                 snap[k] = ["object", id(v)]
         return snap
@@ -198,6 +207,26 @@ class C12(Harness):
                 t = W.load("sktime.transformations.series.impute").Imputer(method=w.split("-")[1])
             elif w == "log":
                 t = W.load("sktime.transformations.series.boxcox").LogTransformer()
+            elif w == "boxcox-pearsonr":
+                _c13.HARNESS.__dict__.setdefault("_hold", {})[W.kind] = {"W": W, "lam": inp["lam"], "lam2": inp["lam"], "sigma": None, "s0": s0}
+                t = W.load("sktime.transformations.series.boxcox").BoxCoxTransformer(method="pearsonr")
+            elif w == "adaptor":
+                from sklearn.base import BaseEstimator, TransformerMixin
+
+                class Sk(TransformerMixin, BaseEstimator):
+                    """a scikit-learn style scaler: learns a reference (first training value) at fit"""
+
+                    def fit(self, Xa, y=None):
+                        self.ref_ = S(Xa[0, 0])
+                        return self
+
+                    def transform(self, Xa):
+                        return np.array([[W.uf("sk", [v, self.ref_], "rr>r")] for v in L(Xa[:, 0])])
+
+                    def inverse_transform(self, Xa):
+                        return np.array([[W.uf("skinv", [v, self.ref_], "rr>r")] for v in L(Xa[:, 0])])
+
+                t = W.load("sktime.transformations.series.adapt").TabularToSeriesAdaptor(Sk())
             elif w == "detrender":
                 t = W.load("sktime.transformations.series.detrend._detrend").Detrender()
             elif w == "deseasonalizer":
@@ -218,7 +247,7 @@ class C12(Harness):
             mid = self._snapshot(t)
             r2 = t.transform(z)
             out["r2"] = pack(r2)
-            if hasattr(t, "inverse_transform") and w in ("log", "detrender", "deseasonalizer", "passthrough"):
+            if hasattr(t, "inverse_transform") and w in ("log", "detrender", "deseasonalizer", "passthrough", "adaptor", "boxcox-pearsonr"):
                 rin = pack(r1)
                 t.inverse_transform(r1)
                 out["r1_after_inverse"] = pack(r1)
@@ -491,12 +520,14 @@ class C12(Harness):
             if isinstance(t, list):
                 if len(t) == 2 and t[0] == "object":
                     return ["object", 0]
+                if len(t) == 3 and t[0] == "estimator":
+                    return ["object", 0]  # (a wrapped estimator's own state is judged by the oracle in each world, not compared across worlds)
                 return [strip(v) for v in t]
             return t
 
         o = strip(out)
-        if cell["which"] in ("log", "cosine"):
-            return {"y_after_fit": o.get("y_after_fit")}
+        if cell["which"] in ("log", "cosine", "boxcox-pearsonr"):  # transcendental values: uninterpreted (symbolic) vs floats (real)
+            return {"y_after_fit": o.get("y_after_fit"), "z_after": o.get("z_after")}
         return o
 
     def signature(self, label, inp, cell, detail=None):
